@@ -16,14 +16,19 @@ using namespace phosg;
 
 enum SetOp { S_INSERT = 0, S_EMPLACE, S_ERASE, S_TOUCH, S_TOUCH_SIZE, S_CHANGE_SIZE, S_PEEK, S_EVICT, S_CLEAR, S_SWAP, S_TOUCH_NEG, S_NOPS };
 
+// Every LRUSet member has exactly one call site per step (the three touch flavours differ only in the argument).
 static int64_t set_step(LRUSet<int>& t, LRUSet<int>& o, uint8_t op, int k, size_t sz) {
   switch (op) {
     case S_INSERT: return t.insert(k, sz);
     case S_EMPLACE: return t.emplace(std::move(k), sz);
     case S_ERASE: return t.erase(k);
-    case S_TOUCH: return t.touch(k);
-    case S_TOUCH_SIZE: return t.touch(k, static_cast<ssize_t>(sz));
-    case S_TOUCH_NEG: return t.touch(k, -2 - static_cast<ssize_t>(sz));
+    case S_TOUCH:
+    case S_TOUCH_SIZE:
+    case S_TOUCH_NEG: {
+      // touch(k) == touch(k, -1); any negative new_size means "keep the size"
+      ssize_t ns = (op == S_TOUCH_SIZE) ? static_cast<ssize_t>(sz) : (op == S_TOUCH) ? -1 : -2 - static_cast<ssize_t>(sz);
+      return t.touch(k, ns);
+    }
     case S_CHANGE_SIZE: return t.change_size(k, sz);
     case S_PEEK:
       try {
@@ -50,20 +55,20 @@ static int64_t set_step(LRUSet<int>& t, LRUSet<int>& o, uint8_t op, int k, size_
 WEXPORT int64_t w_lruset_history(const uint8_t* op, const uint8_t* which, const uint8_t* key, const uint8_t* sz, size_t n,
     int64_t* out, int64_t* drain, size_t drain_max) {
   try {
-    LRUSet<int> s[2];
+    LRUSet<int> s0, s1;
     for (size_t i = 0; i < n; i++) {
-      size_t w = which[i] & 1;
-      out[OBS_PER_STEP * i + 0] = set_step(s[w], s[1 - w], op[i], key[i], sz[i]);
-      out[OBS_PER_STEP * i + 1] = static_cast<int64_t>(s[0].size());
-      out[OBS_PER_STEP * i + 2] = static_cast<int64_t>(s[0].count());
-      out[OBS_PER_STEP * i + 3] = static_cast<int64_t>(s[1].size());
-      out[OBS_PER_STEP * i + 4] = static_cast<int64_t>(s[1].count());
+      out[OBS_PER_STEP * i + 0] = (which[i] & 1) ? set_step(s1, s0, op[i], key[i], sz[i]) : set_step(s0, s1, op[i], key[i], sz[i]);
+      out[OBS_PER_STEP * i + 1] = static_cast<int64_t>(s0.size());
+      out[OBS_PER_STEP * i + 2] = static_cast<int64_t>(s0.count());
+      out[OBS_PER_STEP * i + 3] = static_cast<int64_t>(s1.size());
+      out[OBS_PER_STEP * i + 4] = static_cast<int64_t>(s1.count());
     }
     for (size_t w = 0; w < 2; w++) {
+      LRUSet<int>& d = w ? s1 : s0;
       for (size_t j = 0; j <= drain_max; j++) {
         int64_t r;
         try {
-          auto p = s[w].evict_object();
+          auto p = d.evict_object();
           r = ENC_KS(p.first, p.second);
         } catch (const std::out_of_range&) {
           r = W_OUT_OF_RANGE;
@@ -74,7 +79,7 @@ WEXPORT int64_t w_lruset_history(const uint8_t* op, const uint8_t* which, const 
         }
       }
     }
-    return static_cast<int64_t>(s[0].size() + s[0].count() + s[1].size() + s[1].count());
+    return static_cast<int64_t>(s0.size() + s0.count() + s1.size() + s1.count());
   }
   W_CATCH_ALL
 }
@@ -83,14 +88,13 @@ WEXPORT int64_t w_lruset_history(const uint8_t* op, const uint8_t* which, const 
 WEXPORT int64_t w_lruset_history_nodrain(const uint8_t* op, const uint8_t* which, const uint8_t* key, const uint8_t* sz, size_t n,
     int64_t* out) {
   try {
-    LRUSet<int> s[2];
+    LRUSet<int> s0, s1;
     for (size_t i = 0; i < n; i++) {
-      size_t w = which[i] & 1;
-      out[OBS_PER_STEP * i + 0] = set_step(s[w], s[1 - w], op[i], key[i], sz[i]);
-      out[OBS_PER_STEP * i + 1] = static_cast<int64_t>(s[0].size());
-      out[OBS_PER_STEP * i + 2] = static_cast<int64_t>(s[0].count());
-      out[OBS_PER_STEP * i + 3] = static_cast<int64_t>(s[1].size());
-      out[OBS_PER_STEP * i + 4] = static_cast<int64_t>(s[1].count());
+      out[OBS_PER_STEP * i + 0] = (which[i] & 1) ? set_step(s1, s0, op[i], key[i], sz[i]) : set_step(s0, s1, op[i], key[i], sz[i]);
+      out[OBS_PER_STEP * i + 1] = static_cast<int64_t>(s0.size());
+      out[OBS_PER_STEP * i + 2] = static_cast<int64_t>(s0.count());
+      out[OBS_PER_STEP * i + 3] = static_cast<int64_t>(s1.size());
+      out[OBS_PER_STEP * i + 4] = static_cast<int64_t>(s1.count());
     }
     return 0;
   }
